@@ -156,7 +156,12 @@ func (t *Topic) DeleteExistingChannel(channelName string) error {
 	// we do this before removing the channel from map below (with no lock)
 	// so that any incoming subs will error and not create a new channel
 	// to enforce ordering
-	channel.Delete()
+	err := channel.Delete()
+	if err != nil {
+		// somebody else is already deleting (or closing) this channel and removes it
+		// from the map when its files are gone
+		return err
+	}
 
 	t.Lock()
 	delete(t.channelMap, channelName)
